@@ -265,7 +265,8 @@ def kernelOf (dev : Dev) (l : Node × Tree) : TT :=
   let body := devGo ⟨dev, false, false, false⟩ loop
   -- migrateLocalDecls: each declaration is moved with addFirst, so the order is reversed
   let moved := if dev.sharedInPlace then TT.nil
-    else (sharedDecls loop).foldl (fun acc d => TT.leaf (.declShared d) acc) TT.nil
+    else (sharedDecls loop).foldl (fun acc d => TT.leaf (.declShared (if dev = .dpcpp then [] else d)) acc) TT.nil
+    -- dpcpp: the declaration becomes `auto & s = *(sycl::…group_local_memory_for_overwrite<T[n]>(…))`, no array suffix left
   .node .kernel (moved.append body) .nil
 
 def launcherT (dev : Dev) (k : Kernel) : List TT := (outerMostOuter k.body).map (kernelOf dev)
